@@ -2,6 +2,7 @@
 
   body <hex utf8> | attrv <hex> | comment <hex utf8> <enc> | attrname <hex utf8> <hex utf8 value> <enc> <doc>
   | tagname <hex utf8> <enc> <doc>
+  | attrseq <enc> <hex utf8 name> <hex of the lower-cased name in enc> <hex source attr name|-> <hex v1> <hex v2>
 
 Strings are biased to `<>&"'-!/= `, whitespace, NUL, comment terminators and their near misses,
 non-BMP scalars, and scalars around the mappable window of x-user-defined (U+F780..U+F7FF).
@@ -18,6 +19,54 @@ NONASCII = ["é", " ", " ", "�", "﻿", "\U0001F600", "\U00010000", "\U0010
             "", "", "", "", "", "İ", "K", "ア", "　"]
 NAMES = ["a", "div", "href", "data-x", "xml:lang", "on-click", "B", "Class", "d", "script", "textarea", "title",
          "plaintext", "style", "svg", "math", "br", "x-y.z", "a1", "h1"]
+
+
+# Characters of multi-byte encodings (finding F22). (char, encoded hex); "up": trail byte in A..Z,
+# "lo": trail byte in a..z, "hi": trail byte >= 0x80, "pairs": (X, hex, Y, hex) with hex(Y) = hex(X) + 0x20
+# in the trail byte. The harness checks every supplied encoding against encoding_rs (`bad-case-encoding`).
+MB = {"sjis": {"up": [["\u512a", "9744"], ["\u30fe", "8153"], ["\u5256", "9655"], ["\u4f46", "9241"], ["\u5366", "8c54"], ["\u5168", "9153"], ["\u513c", "9956"], ["\u50ee", "9949"], ["\u309e", "8155"], ["\u50be", "8c58"], ["\u30a2", "8341"]], "pairs": [["\u5121", "9953", "\u51b1", "9973"], ["\u30b1", "8350", "\u30d1", "8370"], ["\u5100", "8b56", "\u4e45", "8b76"], ["\u30a5", "8344", "\u30c5", "8364"], ["\u30ac", "834b", "\u30cc", "836b"], ["\u30a9", "8348", "\u30c9", "8368"]], "lo": [["\u50e7", "916d"], ["\u51a4", "996c"], ["\u4e99", "9869"], ["\u514e", "9365"], ["\u51b3", "9972"]], "hi": [["\u30f5", "8395"], ["\u4fd8", "98d8"], ["\u304e", "82ac"], ["\u4f5d", "98c6"]]},
+      "big5": {"up": [["\u52a9", "a755"], ["\u4e4e", "a547"], ["\u5200", "a44d"], ["\u4fd0", "ab57"], ["\u4e0f", "c94d"], ["\u4e01", "a442"], ["\u4ed4", "a54a"], ["\u5382", "c944"], ["\u52e9", "e143"], ["\u51f5", "c942"]], "pairs": [["\u5145", "a552", "\u53f5", "a572"], ["\u5144", "a553", "\u53eb", "a573"], ["\u4ed5", "a54b", "\u53f3", "a56b"], ["\u4ead", "ab46", "\u524c", "ab66"], ["\u5189", "a554", "\u53e6", "a574"], ["\u4e03", "a443", "\u52fa", "a463"]], "lo": [["\u51b9", "ca6b"], ["\u52fa", "a463"], ["\u53f0", "a578"], ["\u511f", "c076"], ["\u53e6", "a574"]], "hi": [["\u523a", "a8eb"], ["\u4f4f", "a6ed"], ["\u5018", "add5"], ["\u50c4", "dcb8"]]},
+      "gbk": {"up": [["\u50cb", "834e"], ["\u51ec", "844e"], ["\u4e20", "8148"], ["\u532c", "8550"], ["\u50c9", "834c"], ["\u4e2f", "814e"], ["\u4fbd", "824f"], ["\u4fb0", "8243"], ["\u51f4", "8452"], ["\u532d", "8551"]], "pairs": [["\u50c9", "834c", "\u50f1", "836c"], ["\u51fe", "8454", "\u5247", "8474"], ["\u4fab", "8241", "\u4fdb", "8261"], ["\u4e0f", "8144", "\u4e68", "8164"], ["\u50c1", "8344", "\u50e4", "8364"], ["\u5312", "8541", "\u5346", "8561"]], "lo": [["\u50f4", "836e"], ["\u4ff9", "826f"], ["\u523e", "8470"], ["\u4ff0", "8269"], ["\u4e75", "816d"]], "hi": [["\u4eb2", "c7d7"], ["\u5375", "c2d1"], ["\u5374", "c8b4"], ["\u51a3", "83e2"]]}}
+SAFE_VAL = list("abcxyz019 \"'<>=/-")
+
+
+def rand_attrseq(rng):
+    """Two set_attribute calls with the same name. Names: ASCII letters mixed with 0..2 multi-byte
+    characters; the source attribute (if any) is the same name, a trail-byte-case variant of it, a
+    case variant of its ASCII part, or something unrelated."""
+    enc = rng.choice(["sjis", "sjis", "big5", "gbk", "utf8"])
+    val = lambda: "".join(rng.choice(SAFE_VAL) for _ in range(rng.randrange(0, 4)))
+    if enc == "utf8":
+        name = rng.choice(["a", "B", "data-x", "\u30a2", "x\u00e9", "Cl"])
+        low = name.lower() if name.isascii() else "".join(ch.lower() if ch.isascii() else ch for ch in name)
+        src = rng.choice([None, low.encode(), name.encode(), b"zz", name.swapcase().encode() if name.isascii() else name.encode()])
+        return "attrseq utf8 %s %s %s %s %s" % (hx(name.encode()), hx(low.encode()), hx(src) if src else "-", hx(val().encode()), hx(val().encode()))
+    t = MB[enc]
+    parts = []          # (utf8 string, encoded bytes of its lower-cased form, encoded bytes as source variant)
+    k = rng.choice(["up", "up", "up", "pairs", "pairs", "lo", "hi"])
+    pre = rng.choice(["", "", "a", "X", "d-"])
+    post = rng.choice(["", "", "b", "Q"])
+    if k == "pairs":
+        x, xh, y, yh = rng.choice(t["pairs"])
+        use_low_as_name = rng.random() < 0.6
+        ch, chh, oth = (y, yh, xh) if use_low_as_name else (x, xh, yh)
+    else:
+        ch, chh = rng.choice(t[k])
+        oth = chh
+    name = pre + ch + post
+    enc_low = pre.lower().encode() + bytes.fromhex(chh) + post.lower().encode()
+    r = rng.random()
+    if r < 0.25:
+        src = None
+    elif r < 0.55:
+        src = pre.encode() + bytes.fromhex(chh) + post.encode()            # the same name
+    elif r < 0.75:
+        src = pre.swapcase().encode() + bytes.fromhex(oth) + post.swapcase().encode()   # trail-byte / ASCII case variant
+    elif r < 0.9:
+        src = pre.lower().encode() + bytes.fromhex(oth) + post.lower().encode()
+    else:
+        src = b"zz"
+    return "attrseq %s %s %s %s %s %s" % (enc, hx(name.encode()), hx(enc_low), hx(src) if src else "-", hx(val().encode()), hx(val().encode()))
 
 
 def hx(b):
@@ -83,8 +132,10 @@ def enc(rng):
 def gen(rng, n, tier, pid):
     cases = []
     for i in range(n):
-        k = rng.randrange(5)
-        if k == 0:
+        k = rng.randrange(6)
+        if k == 5:
+            cases.append(rand_attrseq(rng))
+        elif k == 0:
             cases.append("body " + hx(rand_string(rng, 16).encode()))
         elif k == 1:
             if rng.random() < 0.2:
@@ -101,15 +152,33 @@ def gen(rng, n, tier, pid):
     return cases
 
 
+def case_enc(case):
+    f = case.split(" ")
+    return f[1] if len(f) > 1 else "?"
+
+
 def nontrivial(case, obs):
     f = case.split(" ")
     return len(f) > 1 and f[1] != "-"
+
+
+def project(pid, case, line):
+    """`attrseq f22 ...`: the model says a debug assertion of eq_case_insensitive fails on this case
+    (finding F22). A debug build of the implementation panics there (`attrseq f22 PANIC`), a release
+    build carries on (`attrseq f22 <results> <output>`, equal to the model's line): compare the marker only."""
+    if line.startswith("attrseq f22"):
+        return "attrseq f22"
+    return line
 
 
 def stats(cases, obs):
     d = {}
     for c, o in zip(cases, obs):
         f = o.split(" ")
+        if f[0] == "attrseq":
+            key = "attrseq:" + case_enc(c) + (":f22" if len(f) > 1 and f[1] == "f22" else "")
+            d[key] = d.get(key, 0) + 1
+            continue
         key = f[0] + (":" + f[1].split(":")[0] + (":" + f[1].split(":")[1] if f[1].startswith("err:") else "") if f[0] in ("comment", "attrname", "tagname") and len(f) > 1 else "")
         d[key] = d.get(key, 0) + 1
     return dict(sorted(d.items()))
